@@ -959,6 +959,63 @@ fn c06_group(g: &C06Group) -> (Vec<Violation>, CaseOut) {
     (v, out)
 }
 
+/// fashare level: whatever a party hands to the online phase stays with it - neither the MACs it
+/// holds on its returned shares nor the keys it holds for the others' returned shares appear in
+/// anything it sent during the preprocessing (the consistency round opens only the RHO extra shares).
+fn c06_fashare_run(spec: &PreSpec) -> (Vec<Violation>, u64, u64) {
+    let sv = json!({"fashare": spec});
+    let mut v = vec![];
+    let mut cfg = RunCfg::honest(spec.n, spec.cap, spec.seed, spec.sched.clone());
+    cfg.max_steps = 5_000_000;
+    let res = sim::run(&cfg, Arc::new(PreTask { spec: spec.clone() }));
+    let mut looked = 0u64;
+    for p in 0..spec.n {
+        let End::Ok(b) = &res.ends[p] else {
+            v.push(viol("preprocessing-failed", "preprocessing-failed:c06", format!("party {p} ended with {}", res.ends[p].summary()), &sv));
+            return (v, res.steps, looked);
+        };
+        let Some(o) = b.downcast_ref::<PreOut>() else { continue };
+        let mut windows: std::collections::HashMap<u128, usize> = std::collections::HashMap::new();
+        for (mi, m) in res.transcript.iter().enumerate().filter(|(_, m)| m.from == p) {
+            let d = &m.data;
+            if d.len() >= 16 {
+                for i in 0..=(d.len() - 16) {
+                    let w: [u8; 16] = d[i..i + 16].try_into().unwrap();
+                    windows.entry(u128::from_le_bytes(w)).or_insert(mi);
+                    windows.entry(u128::from_be_bytes(w)).or_insert(mi);
+                }
+            }
+        }
+        for (x, sh) in o.shares.iter().enumerate() {
+            for (what, vals) in [("MAC", &sh.macs), ("key", &sh.keys)] {
+                for (k, val) in vals.iter().enumerate() {
+                    if *val == 0 || k == p {
+                        continue;
+                    }
+                    looked += 1;
+                    if let Some(mi) = windows.get(val) {
+                        let m = &res.transcript[*mi];
+                        v.push(viol(
+                            "returned-share-disclosed",
+                            &format!("returned-share-disclosed:{what}:{}", m.phase),
+                            format!(
+                                "party {p}: the {what} for party {k} of returned share #{x} (of {}) appears in its '{}' message to party {} (message #{} of the link)",
+                                o.shares.len(),
+                                m.phase,
+                                m.to,
+                                m.idx
+                            ),
+                            &sv,
+                        ));
+                        return (v, res.steps, looked);
+                    }
+                }
+            }
+        }
+    }
+    (v, res.steps, looked)
+}
+
 impl Check for C06 {
     fn id(&self) -> &'static str {
         "C06"
@@ -967,7 +1024,7 @@ impl Check for C06 {
         "exploration"
     }
     fn rule(&self) -> String {
-        "each case fixes a configuration (n in {2,3}) and executes it N times per input value (N=200 quick, 2000 thorough; fresh coins and schedule seed each) with all input bits 0 resp. 1; from the transcript alone, for every input wire: b = decoded 'masked inputs' bit xor the bits the other parties sent to the owner in 'wire shares'; the count of b=1 must lie within 6.5 sigma of N/2 for input 0 and input 1 alike. Canary cases: a party with 128 random input bits, its outgoing traffic scanned for the run as 128 bool bytes, as 16 packed bytes in both bit orders and as a run in the decoded bool stream. Wide configurations (129 input wires) run under the balance test too, and there the vector of a party's own shares of the masks of its own input wires must not appear in its traffic, and the one-time pads of the half-authenticated AND (probed) must be fresh: no run of more than 64 equal pad bits, balanced overall. All probed global keys, and all own-mask vectors of >= 64 bits, must be pairwise distinct over all runs and parties. evaluations = simulated runs; distinct = (configuration, run) coins".into()
+        "each case fixes a configuration (n in {2,3}) and executes it N times per input value (N=200 quick, 2000 thorough; fresh coins and schedule seed each) with all input bits 0 resp. 1; from the transcript alone, for every input wire: b = decoded 'masked inputs' bit xor the bits the other parties sent to the owner in 'wire shares'; the count of b=1 must lie within 6.5 sigma of N/2 for input 0 and input 1 alike. Canary cases: a party with 128 random input bits, its outgoing traffic scanned for the run as 128 bool bytes, as 16 packed bytes in both bit orders and as a run in the decoded bool stream. Wide configurations (129 input wires) run under the balance test too, and there the vector of a party's own shares of the masks of its own input wires must not appear in its traffic, and the one-time pads of the half-authenticated AND (probed) must be fresh: no run of more than 64 equal pad bits, balanced overall. All probed global keys, and all own-mask vectors of >= 64 bits, must be pairwise distinct over all runs and parties. fashare level (n in 2..4, l in {1,2,3,7,40,128,129,1000}): none of the MACs a party holds on the shares fashare returns to it, and none of the keys it holds for the others' returned shares, appears at any byte offset (either byte order) in anything it sent - the consistency round opens only the RHO extra shares. evaluations = simulated runs; distinct = (configuration, run) coins".into()
     }
     fn assumptions(&self) -> Vec<String> {
         vec![
@@ -985,12 +1042,40 @@ impl Check for C06 {
         // wide configurations (129 + input wires) under the balance test
         let wide = if tier == Tier::Quick { 2 } else { 8 };
         v.extend((0..wide).map(|k| json!({"seed": seed, "k": 2000 + k, "runs": runs, "canary": true, "wide": true})));
+        // fashare level: returned shares are not among the opened ones
+        let fa = if tier == Tier::Quick { 4 } else { 40 };
+        v.extend((0..fa).map(|k| json!({"seed": seed, "k": 3000 + k, "fashare": true})));
         v
     }
     fn run_case(&self, case: &Value, cx: &CaseCx) -> CaseOut {
         let seed = case["seed"].as_u64().unwrap();
         let k = case["k"].as_u64().unwrap();
         let mut rng = entropy::rng(seed, 0xc06, k);
+        if case.get("fashare").is_some() {
+            let mut out = CaseOut::default();
+            for j in 0..6usize {
+                let n = 2 + (k as usize + j) % 3;
+                let spec = PreSpec {
+                    n,
+                    l: [1usize, 2, 3, 7, 40, 128, 129, 1000][rng.random_range(0..8)],
+                    ands: 0,
+                    dealer: false,
+                    cap: [0, 1, 2][rng.random_range(0..3)],
+                    seed: rng.random(),
+                    sched: sched(&mut rng, n),
+                    equivocate: None,
+                };
+                cx.begin(&json!({"fashare": spec}));
+                let (v, steps, looked) = c06_fashare_run(&spec);
+                out.evals += 1;
+                out.sim_steps += steps;
+                out.count("fashare_runs", 1);
+                out.count("returned_macs_and_keys_looked_up", looked);
+                out.distinct.push(entropy::mix(spec.l as u64, n as u64, spec.seed));
+                out.violations.extend(v);
+            }
+            return out;
+        }
         let n = if k % 2 == 0 { 2 } else { 3 };
         let mut spec = gen_honest(&mut rng, n, 1, 3, &[0]);
         spec.tmp = vec![false; n];
@@ -1038,6 +1123,12 @@ impl Check for C06 {
         out
     }
     fn replay(&self, spec: &Value) -> Vec<Violation> {
+        if let Some(f) = spec.get("fashare") {
+            return match serde_json::from_value::<PreSpec>(f.clone()) {
+                Ok(s) => c06_fashare_run(&s).0,
+                Err(_) => vec![],
+            };
+        }
         if let Some(what) = spec.get("duplicates").and_then(|d| d.as_str()) {
             // re-execute the two executions named in the spec and compare the probed values
             let site = if what == "keys" { "delta" } else { "input_mask_bits" };
